@@ -35,8 +35,8 @@ import (
 	"github.com/keep-network/keep-core/pkg/protocol/group"
 	"github.com/keep-network/keep-core/pkg/subscription"
 
-	beaconchain "github.com/keep-network/keep-core/pkg/beacon/chain"
 	bn256 "github.com/ethereum/go-ethereum/crypto/bn256/cloudflare"
+	beaconchain "github.com/keep-network/keep-core/pkg/beacon/chain"
 )
 
 var _ = altbn128.G1Point{}
@@ -292,6 +292,17 @@ func c06nWaitDone(ch chan struct{}, d time.Duration) bool {
 func TestVerif_C06_NodeHandler(t *testing.T) {
 	r := verifkit.Start(t, "C06", "node")
 	defer r.Finish()
+	c06NodeHandlerWorkload(t, r, r.N(120, 3000))
+}
+
+// TestVerif_C06_NodeHandlerRace: the same deliveries under the race detector (the handler spawns goroutines around the deduplicator and the node)
+func TestVerif_C06_NodeHandlerRace(t *testing.T) {
+	r := verifkit.Start(t, "C06", "node-race")
+	defer r.Finish()
+	c06NodeHandlerWorkload(t, r, r.N(40, 600))
+}
+
+func c06NodeHandlerWorkload(t *testing.T, r *verifkit.Run, n int) {
 	r.SetRule("Initialize's relay-entry-requested handler (chain confirmation -> deduplicator -> GenerateRelayEntry) is driven on a real node " +
 		"(real group registry on disk, real deduplicator, local network) with scripted deliveries: in-order requests, concurrent duplicates, " +
 		"stale redeliveries with a stale chain answer, and a confirmation held on the chain while a newer request is delivered and processed. " +
@@ -299,7 +310,6 @@ func TestVerif_C06_NodeHandler(t *testing.T) {
 		"Non-trivial: at least one signing start was observed and the scenario contains a duplicate, a stale redelivery or a held confirmation.")
 	r.Assume("a request is 'already processed' once the node opened the broadcast channel for it; an older request counts as started after it only when its confirmation was released after that point")
 
-	cases := r.N(120, 3000)
 	type res struct {
 		desc      string
 		nontriv   bool
@@ -308,6 +318,7 @@ func TestVerif_C06_NodeHandler(t *testing.T) {
 		starts    int
 		heldCases int
 	}
+	cases := n
 	out := make([]res, cases)
 	const wd = 20 * time.Second
 	verifkit.Parallel(cases, 16, func(ci int) {
